@@ -26,6 +26,9 @@ def run(ctx):
     ctx.each(r12f, ctx, repo)
     ctx.each(r12g, ctx, repo)
     ctx.each(r12h, ctx, repo)
+    from . import c16
+
+    ctx.each(c16.r16a, ctx, repo, K.types(repo))  # the weighted average is computed from a cache of deltas: it must follow every edit of baseline / outcomes
 
 
 def r12a(ctx, repo):
